@@ -256,16 +256,35 @@ def impl_monitors(impl_path):
     return hits
 
 
+def hang_result(res, e, limit_s):
+    """The implementation did not answer an operation within the time limit (a loop that does not end): the
+    operations answered so far plus the one that hangs are the history; reported as a halt (C03)."""
+    err = (e.stderr or b'').decode(errors='replace').split('\n')
+    started = [l[2:] for l in err if l.startswith('X ')]
+    hist = res['impl'][:-5] + '.hang.ops'
+    with open(hist, 'w') as f:
+        f.write('\n'.join(started) + '\n')
+    res['hang'] = {'op': started[-1] if started else '', 'index': len(started), 'ops': hist, 'limit_s': limit_s}
+    res['mismatches'] = []
+    res['stats'] = {'ops': 0, 'accept': 0, 'reject': 0, 'halt': 0, 'monitor_hits': []}
+    res['impl_hits'] = []
+    return res
+
+
 def one_history(workdir, seed, profile, blocks):
     """Generate one history on the real app, replay it on the model, compare. Returns a result dict."""
     tag = '%s_%d' % (profile, seed)
     ops = os.path.join(workdir, tag + '.ops')
     impl = os.path.join(workdir, tag + '.impl')
     model = os.path.join(workdir, tag + '.model')
-    with open(impl, 'wb') as f:
-        p = subprocess.run([os.path.join(BIN, 'hubsim'), 'gen', '-seed', str(seed), '-blocks', str(blocks), '-profile', profile, '-ops', ops],
-                           stdout=f, stderr=subprocess.PIPE, timeout=1800)
     res = {'seed': seed, 'profile': profile, 'ops': ops, 'impl': impl, 'model': model}
+    limit_s = 120 if blocks <= 150 else 600
+    try:
+        with open(impl, 'wb') as f:
+            p = subprocess.run([os.path.join(BIN, 'hubsim'), 'gen', '-seed', str(seed), '-blocks', str(blocks), '-profile', profile, '-ops', ops],
+                               stdout=f, stderr=subprocess.PIPE, timeout=limit_s)
+    except subprocess.TimeoutExpired as e:
+        return hang_result(res, e, limit_s)
     if p.returncode != 0:
         res['gen_error'] = p.stderr.decode(errors='replace')[-1500:]
         return res
@@ -287,8 +306,11 @@ def one_corpus(workdir, ops):
     impl = os.path.join(workdir, tag + '.impl')
     model = os.path.join(workdir, tag + '.model')
     res = {'seed': 0, 'profile': tag, 'ops': ops, 'impl': impl, 'model': model, 'keep_ops': True}
-    with open(ops, 'rb') as fi, open(impl, 'wb') as fo:
-        p = subprocess.run([os.path.join(BIN, 'hubsim'), 'run'], stdin=fi, stdout=fo, stderr=subprocess.PIPE, timeout=600)
+    try:
+        with open(ops, 'rb') as fi, open(impl, 'wb') as fo:
+            p = subprocess.run([os.path.join(BIN, 'hubsim'), 'run'], stdin=fi, stdout=fo, stderr=subprocess.PIPE, timeout=300)
+    except subprocess.TimeoutExpired as e:
+        return hang_result(res, e, 300)
     if p.returncode != 0:
         res['gen_error'] = p.stderr.decode(errors='replace')[-1500:]
         return res
@@ -468,6 +490,12 @@ def summarize(results):
     halts = []
     for r in results:
         if 'gen_error' in r or 'model_error' in r:
+            continue
+        if r.get('hang'):
+            hg = r['hang']
+            halts.append({'seed': r['seed'], 'profile': r['profile'], 'ops': hg['ops'], 'index': hg['index'], 'op': hg['op'],
+                          'message': 'operation_does_not_complete:_no_answer_within_%d_s' % hg['limit_s'], 'delay_change_before': False, 'reimport_before': False})
+            r['halts'] = True
             continue
         try:
             with open(r['impl'], errors='replace') as f:
